@@ -16,7 +16,7 @@
 From Coq Require Import List Arith ZArith QArith Permutation Lia.
 Import ListNotations.
 From SV Require Import C15.Oks C15.Lemmas C16.Metrics C16.Lemmas C16.LemmasPairs C16.LemmasDelete C16.LemmasState
-  C16.LemmasRound C16.LemmasDelete2 C16.LemmasReport.
+  C16.LemmasRound C16.LemmasDelete2 C16.LemmasReport C15.Contract C16.LemmasExt C16.LemmasDelLabels C16.LemmasCopy.
 Local Open Scope Q_scope.
 
 (* ---- (a) predictions identical to the ground truth ----
@@ -537,3 +537,196 @@ Example ex_c16_cross_pair_breaks_perfect :
             (0%nat, [[[Some 0; Some 0]; [None; None]]; [[Some 0; Some 0]; [Some 5; Some 5]]], [1 # 2; 7 # 8]))]
   with Some (pps, _) => moks pps | None => None end = Some (3 # 4).
 Proof. vm_compute. reflexivity. Qed.
+
+(* ======== proof extension (LemmasExt.v, LemmasDelLabels.v): clauses (b)-(e) on the report of
+   `evaluate round_f64` — the function the harness runs against Evaluator.evaluate() — for all inputs ======== *)
+
+(* (b) every ratio of one report is in [0,1]: OKS table and PCK table (recalls, precisions, AP, mAP, mAR), mOKS,
+   mPCK and the per-node PCKs, visibility precision / recall.  Hypotheses: non-empty grids (see above) and OKS
+   matrices in [0,1] (C15 range theorem; oracle input) — the latter is needed for mOKS only. *)
+Theorem c16_report_bounds : forall fx ulo thr n db gtL prL m r k rep,
+  m <> [] -> r <> [] ->
+  (forall fp g p x, In fp (find_pairs ulo db gtL prL) -> mget (frame_M fp) g p = Some x -> 0 <= x <= 1) ->
+  evaluate round_f64 fx ulo thr n db gtL prL m r k = Ok rep ->
+  (forall v, r_voc rep = Some v -> voc_in_unit v) /\
+  (forall v, r_pckvoc rep = Some v -> voc_in_unit v) /\
+  (forall q, r_moks rep = Some q -> 0 <= q <= 1) /\
+  (forall q, r_mpck rep = Some q -> 0 <= q <= 1) /\
+  (forall ps, r_parts rep = Some ps -> Forall (fun x => 0 <= x <= 1) ps) /\
+  (forall q, r_vprec rep = Some q -> 0 <= q <= 1) /\
+  (forall q, r_vrec rep = Some q -> 0 <= q <= 1).
+Proof. exact report_bounds. Qed.
+Print Assumptions c16_report_bounds.
+
+(* `voc_in_unit` spelled out *)
+Theorem c16_voc_in_unit_def : forall v, voc_in_unit v <->
+  Forall (fun row => 0 <= vr_recall row <= 1 /\ Forall (fun x => 0 <= x <= 1) (vr_precisions row) /\
+                     0 <= vr_ap row <= 1) (voc_rows v) /\
+  0 <= voc_map v <= 1 /\ 0 <= voc_mar v <= 1.
+Proof. intros v. reflexivity. Qed.
+Print Assumptions c16_voc_in_unit_def.
+
+Definition xdb : oksdb := [(0%nat, 0%nat, [[Some 1; Some 1]; [Some (1 # 2); Some 1]])].
+Definition xgt : labels := lab [(pa, None); (pb, None)].
+Definition xpr : labels := lab [(pa, Some (1 # 2)); (pb, Some (7 # 8))].
+Definition rec_ap (v : option voc) : list (Q * Q) :=
+  match v with Some v => map (fun row => (Qred (vr_recall row), Qred (vr_ap row))) (voc_rows v) | None => [] end.
+
+(* non-vacuity: the F160 labels meet every hypothesis, all seven ratios / tables are present *)
+Example ex_c16_report_bounds :
+  (forall fp g p x, In fp (find_pairs true xdb xgt xpr) -> mget (frame_M fp) g p = Some x -> 0 <= x <= 1) /\
+  exists rep, evaluate round_f64 true true 0 2 xdb xgt xpr [1 # 2; 3 # 4] [0; 1 # 2; 1] [1] = Ok rep /\
+    rec_ap (r_voc rep) = [(1, 9007199254740992 # 9007199254740993); (1 # 2, 9007199254740992 # 13510798882111491)] /\
+    rec_ap (r_pckvoc rep) = [(1, 9007199254740992 # 9007199254740993); (0, 0)] /\
+    r_moks rep = Some (3 # 4) /\ r_mpck rep = Some (1 # 2) /\ r_parts rep = Some [1; 0] /\
+    r_vprec rep = Some (2 # 3) /\ r_vrec rep = Some (2 # 3).
+Proof.
+  split.
+  - intros fp g p x [<-|[]]. cbn.
+    destruct g as [|[|g]]; destruct p as [|[|p]]; cbn; intros H;
+      repeat match type of H with context [match ?v with _ => _ end] => is_var v; destruct v; cbn in H end;
+      try discriminate H; inversion H; subst; split; apply Qle_bool_iff; reflexivity.
+  - eexists. split; [vm_compute; reflexivity|]. repeat split; vm_compute; reflexivity.
+Qed.
+
+(* (c) along the match-threshold grid of ONE report (any grid, sorted or not): at a larger threshold recall, AP and
+   every precision are not larger — OKS table and PCK table; one row per threshold, in grid order *)
+Theorem c16_report_antitone_in_match_grid : forall fx ulo thr n db gtL prL m r k rep,
+  evaluate round_f64 fx ulo thr n db gtL prL m r k = Ok rep ->
+  forall v, (r_voc rep = Some v \/ r_pckvoc rep = Some v) ->
+  length (voc_rows v) = length m /\
+  forall i j t1 t2 row1 row2,
+  nth_error m i = Some t1 -> nth_error m j = Some t2 -> t1 <= t2 ->
+  nth_error (voc_rows v) i = Some row1 -> nth_error (voc_rows v) j = Some row2 ->
+  vr_recall row2 <= vr_recall row1 /\ vr_ap row2 <= vr_ap row1 /\
+  Forall2 Qle (vr_precisions row2) (vr_precisions row1).
+Proof.
+  intros fx ulo thr n db gtL prL m r k rep He v Hv. split.
+  - eapply report_rows_length; eassumption.
+  - eapply report_antitone_in_grid; eassumption.
+Qed.
+Print Assumptions c16_report_antitone_in_match_grid.
+(* non-vacuity: ex_c16_report_bounds — grid [1/2; 3/4], recalls 1 > 1/2, APs strictly decreasing *)
+
+(* (d) the same labels evaluated with pointwise larger pixel thresholds: mPCK and every per-node PCK of the
+   report are not smaller *)
+Theorem c16_report_pck_monotone : forall rnd fx ulo thr n db gtL prL m r k k' rep rep',
+  Forall2 Qle k k' ->
+  evaluate rnd fx ulo thr n db gtL prL m r k = Ok rep ->
+  evaluate rnd fx ulo thr n db gtL prL m r k' = Ok rep' ->
+  (forall q q', r_mpck rep = Some q -> r_mpck rep' = Some q' -> q <= q') /\
+  (forall ps ps', r_parts rep = Some ps -> r_parts rep' = Some ps' -> Forall2 Qle ps ps').
+Proof. exact report_pck_monotone. Qed.
+Print Assumptions c16_report_pck_monotone.
+
+Definition ddb : oksdb := [(0%nat, 0%nat, [[Some (1 # 2); Some (1 # 4)]; [Some 0; Some (3 # 4)]])].
+Definition dpr : labels := lab [(wA2, Some (7 # 8)); (wB, Some (1 # 2))].
+
+Example ex_c16_report_pck_monotone :
+  exists rep rep',
+    evaluate round_f64 true true 0 3 ddb wgt dpr [1 # 2] [0; 1 # 2; 1] [1; 2] = Ok rep /\
+    evaluate round_f64 true true 0 3 ddb wgt dpr [1 # 2] [0; 1 # 2; 1] [1; 4] = Ok rep' /\
+    option_map Qred (r_mpck rep) = Some (1 # 2) /\ option_map Qred (r_mpck rep') = Some (3 # 4).
+Proof. eexists. eexists. split; [vm_compute; reflexivity|]. split; [vm_compute; reflexivity|]. split; vm_compute; reflexivity. Qed.
+
+(* (e) on the labels themselves (closes the step "not proved" of round 4): `del_inst j k prL` removes predicted
+   instance k from the prediction frame at position j, `del_db j k db` removes its column from every OKS matrix of
+   that frame.  The frame pairs change only by `del_pred k` in the pairs holding frame j ... *)
+Theorem c16_delete_instance_changes_pairs_by_del_pred : forall ulo db gtL prL j k,
+  find_pairs_pos ulo (del_db j k db) gtL (del_inst j k prL) =
+  map (fun x : (nat * nat) * (gframe * pframe) =>
+         if (snd (fst x) =? j)%nat then (fst x, del_pred k (snd x)) else x) (find_pairs_pos ulo db gtL prL).
+Proof. exact find_pairs_pos_del. Qed.
+Print Assumptions c16_delete_instance_changes_pairs_by_del_pred.
+
+(* ... so outside the executable selector (`labels_selector_F6 = false`: what the harness evaluates and compares
+   with the oracle's selector on every deletion variant) no recall of the report grows *)
+Theorem c16_delete_instance_evaluate_partial : forall fx ulo thr n db gtL prL j k pf m r kk rep rep' v v',
+  nth_error (snd prL) j = Some pf -> (k < length (lf_insts pf))%nat ->
+  labels_selector_F6 ulo thr db gtL prL j k = false ->
+  evaluate round_f64 fx ulo thr n db gtL prL m r kk = Ok rep ->
+  evaluate round_f64 fx ulo thr n (del_db j k db) gtL (del_inst j k prL) m r kk = Ok rep' ->
+  r_voc rep = Some v -> r_voc rep' = Some v' ->
+  Forall2 (fun row' row => vr_recall row' <= vr_recall row) (voc_rows v') (voc_rows v).
+Proof. exact evaluate_delete_labels. Qed.
+Print Assumptions c16_delete_instance_evaluate_partial.
+
+(* non-vacuity: the matched prediction 0 is deleted outside the selector (the later prediction prefers its own
+   match); del_inst / del_db are the labels without it; recall at 1/2 falls from 1 to 1/2 *)
+Example ex_c16_delete_instance :
+  labels_selector_F6 true 0 ddb wgt dpr 0 0 = false /\
+  del_inst 0 0 dpr = lab [(wB, Some (1 # 2))] /\
+  del_db 0 0 ddb = [(0%nat, 0%nat, [[Some (1 # 4)]; [Some (3 # 4)]])] /\
+  recalls (evaluate round_f64 true true 0 3 ddb wgt dpr [1 # 2] [0; 1 # 2; 1] [1]) = [1] /\
+  recalls (evaluate round_f64 true true 0 3 (del_db 0 0 ddb) wgt (del_inst 0 0 dpr) [1 # 2] [0; 1 # 2; 1] [1]) = [1 # 2].
+Proof. repeat split; vm_compute; reflexivity. Qed.
+
+(* the matcher behind every report: each frame pair of a successful evaluation is matched by a run of C15's
+   match_instances whose answer passes C15's contract checker `match_contractb` — so the clauses of
+   c15_match_answer_contract (each gt instance matched or missed exactly once, each prediction used at most once,
+   counts conserved, every pair an entry of the matrix strictly above the threshold) are theorems about the
+   evaluated matching, not hypotheses *)
+Theorem c16_frames_meet_c15_contract : forall fx ulo thr db gtL prL r,
+  process fx ulo thr db gtL prL = Ok r ->
+  Forall (fun fp : gframe * pframe =>
+            let '((_, gts, M), (_, _, scores)) := fp in
+            exists ms missed, match_instances fx (length gts) scores M thr = Some (ms, missed) /\
+                              match_contractb (length gts) (length scores) M thr ms missed = true)
+         (find_pairs ulo db gtL prL).
+Proof. exact process_frames_meet_contract. Qed.
+Print Assumptions c16_frames_meet_c15_contract.
+
+Example ex_c16_frames_meet_c15_contract :
+  exists r, process true true 0 ddb wgt dpr = Ok r /\ length (find_pairs true ddb wgt dpr) = 1%nat.
+Proof. eexists. split; vm_compute; reflexivity. Qed.
+
+(* (a) from the LABELS (closes "copy_frame is assumed per frame pair" of round 4): prediction labels = gt labels
+   with scores (`is_copy`), pairwise different video keys, no two gt frames with the same (video, frame index),
+   every gt instance takes part (user_labels_only = False, or only user instances), diagonal OKS 1 on visible
+   instances (C15 c15_oks_identical; oracle input), and the COMPLEMENT of the two executable selectors
+   (`labels_selector_F16x = (false, false)`, evaluated by the harness on every perfect case): the perfect report.
+   Still partial: copies in shuffled instance order are covered by the oracle only. *)
+Theorem c16_perfect_labels_report_partial : forall fx ulo thr n db gtL prL mthrs rthrs pthrs,
+  is_copy gtL prL -> distinct_videos (fst gtL) -> distinct_frames (snd gtL) -> all_take_part ulo (snd gtL) ->
+  diag_one (find_pairs ulo db gtL prL) ->
+  labels_selector_F16x ulo db gtL prL = (false, false) ->
+  concat (map frame_gts (find_pairs ulo db gtL prL)) <> [] ->
+  thr < 1 -> mthrs <> [] -> rthrs <> [] ->
+  Forall (fun t => t <= 1) mthrs -> Forall (fun r => r <= 1) rthrs ->
+  exists rep v q,
+    evaluate round_f64 fx ulo thr n db gtL prL mthrs rthrs pthrs = Ok rep /\
+    r_nfn rep = 0%nat /\
+    r_moks rep = Some q /\ q == 1 /\
+    Forall (Forall (fun d => match d with None => True | Some x => x == 0 end)) (r_d2 rep) /\
+    r_voc rep = Some v /\
+    Forall (fun row => vr_recall row == 1 /\ / (1 + eps) <= vr_ap row <= 1) (voc_rows v) /\
+    / (1 + eps) <= voc_map v <= 1 /\ voc_mar v == 1.
+Proof. exact copy_labels_perfect_report. Qed.
+Print Assumptions c16_perfect_labels_report_partial.
+
+(* the pairing step alone: every pair joins equal positions, predicted poses = gt poses in order *)
+Theorem c16_copy_labels_pair_same_positions : forall ulo db gtL prL i j fp,
+  is_copy gtL prL -> distinct_videos (fst gtL) -> distinct_frames (snd gtL) -> all_take_part ulo (snd gtL) ->
+  In ((i, j), fp) (find_pairs_pos ulo db gtL prL) ->
+  j = i /\ (let '((_, gts, _), (_, prs, scores)) := fp in prs = gts /\ length scores = length gts).
+Proof. exact copy_pairs_structure. Qed.
+Print Assumptions c16_copy_labels_pair_same_positions.
+
+(* non-vacuity: two animals, identity OKS matrix: all hypotheses hold *)
+Definition cgt : labels := lab [(wA, None); (wB, None)].
+Definition cpr : labels := lab [(wA, Some (1 # 2)); (wB, Some (7 # 8))].
+Definition cdb : oksdb := [(0%nat, 0%nat, [[Some 1; Some 0]; [Some 0; Some 1]])].
+Example ex_c16_perfect_labels :
+  is_copy cgt cpr /\ distinct_videos (fst cgt) /\ distinct_frames (snd cgt) /\ all_take_part true (snd cgt) /\
+  diag_one (find_pairs true cdb cgt cpr) /\ labels_selector_F16x true cdb cgt cpr = (false, false) /\
+  concat (map frame_gts (find_pairs true cdb cgt cpr)) <> [].
+Proof.
+  split; [split; reflexivity|]. split.
+  { intros [|a] [|b] ka kb Ha Hb _; cbn in Ha, Hb; try reflexivity;
+      try (destruct a; discriminate); try (destruct b; discriminate). }
+  split; [repeat constructor; intros []|]. split; [repeat constructor|].
+  split.
+  { intros fp i g [<-|[]]. cbn. destruct i as [|[|i]]; cbn; intros H Hv; try reflexivity.
+    destruct i; discriminate. }
+  split; [vm_compute; reflexivity|]. vm_compute. discriminate.
+Qed.
